@@ -107,7 +107,7 @@ def mut(e):
 
 def run(ctx):
     ctx.mc("MC_Bip85", core.cfg_of("MC_Bip85.cfg"), label="parameter space: word counts 0..30, byte counts 0..80, lengths 0..100, index classes; path injectivity")
-    events = core.build_events(ctx, gen_inputs(ctx))
+    events = core.build_events(ctx, gen_inputs(ctx) if ctx.quick else core.rounds(ctx, gen_inputs, 8))
     events += core.suite_events(ctx, ["tests/test_bip85.py"], ("Bip85",), len(events), limit=24 if ctx.quick else 400)
     for e in events[:2] + events[-1:]:
         ctx.sample({"call": describe(e), "res": str(e["res"])[:160]})
